@@ -278,7 +278,7 @@ def run(prog, rep, tier, repo):
                         c = canon(g, rv[0], fn, ('upvar', 0, None), {}) if len(rv) == 1 else ''
                         zp = mp[2][0]
                         okzip = tag(zp) == 'call' and short(zp[1]) == 'zip' and canon(f, zp[2][1], fn, me, alias) == 'u'
-                        okn = okzip and _is_lookahead(g, rv, fn)
+                        okn = okzip and _is_lookahead(g, rv, fn, mp[2][1][3])
                 if isp and same and tag(pt) == 'local' and pt[2] == 'params':
                     okp = True
         if okn and okp:
@@ -419,11 +419,21 @@ def _in_outer_loop_only(f, inc_bb, upd_bb):
     return len(withinc) >= 1 and len(inner) > len(withinc)
 
 
-def _is_lookahead(g, rv, fn):
-    """closure |(p, u)| *p - momentum * u"""
+def _is_lookahead(g, rv, fn, caps=None):
+    """closure |(p, u)| *p - momentum * u (momentum read from self or captured as a hoisted local holding self.momentum)"""
     if len(rv) != 1:
         return False
     t = rv[0]
+    if caps:
+        from ..ir import map_term
+
+        def res(n):
+            # a captured scalar local (`let momentum = self.momentum;`) is the field read itself; a captured `self` stays an upvar
+            if tag(n) == 'upvar' and n[1] < len(caps) and tag(caps[n[1]]) == 'field':
+                c_ = caps[n[1]]
+                return ('field', ('upvar', 0, None), c_[2], c_[3])
+            return n
+        t = map_term(t, res)
     if not (tag(t) == 'call' and short(t[1]) == 'sub' and len(t[2]) == 2):
         return False
     a, b = t[2]
